@@ -26,6 +26,7 @@ TRUSTED = [
     "twisted Logger: log.* has no effect and never raises (formatting is lazy)",
     "random.random() returns a real r with 0 <= r < 1; machine floats are treated as reals",
     "user callbacks (onPublish, onDisconnection, onMqttConnectionMade) are passive: no re-entry, no exception",
+    "heap well-formedness at function entry for the fields in HEAP_WF_FIELDS (t_arg, t_owner): no object refers to an object allocated later",
 ]
 
 LIB_CLASSES = {
